@@ -19,7 +19,7 @@ Proof.
   intros c fn fn' n vs mu C0 H. unfold mono in H.
   destruct n as [|n]; [reflexivity|]. rewrite !call_unfold.
   destruct (f_ctx fn) as [c0|] eqn:Ec.
-  - destruct (ctx_eqb c0 c); [|discriminate]. inversion H; subst. rewrite ?Ec. reflexivity.
+  - destruct (same_format c0 c); [|discriminate]. inversion H; subst. rewrite ?Ec. reflexivity.
   - inversion H; subst. cbn [f_params f_ctx f_body]. rewrite ?Ec. reflexivity.
 Qed.
 
